@@ -33,8 +33,8 @@ Calls ==
   \/ \E k \in KeyIds : Get(k) /\ Emit(<<"G", k, 0>>)
   \/ HashOnly /\ Emit(<<"H", 0, 0>>)
   \/ Commit /\ Emit(<<"C", 0, 0>>)
-  \/ Reopen /\ Emit(<<"R", 0, 0>>)
-  \/ Reopen /\ Emit(<<"X", 0, 0>>)
+  \/ Reopen("mem") /\ Emit(<<"R", 0, 0>>)
+  \/ Reopen("disk") /\ Emit(<<"X", 0, 0>>)
   \/ \E l \in {0, 2} : SetLimit(l) /\ Emit(<<"L", 0, l>>)
 
 GenNext == Len(hist) < Depth /\ Calls /\ UNCHANGED rng
@@ -67,7 +67,8 @@ Apply(c) ==
     [] c[1] = "G" -> Get(c[2])
     [] c[1] = "H" -> HashOnly
     [] c[1] = "C" -> Commit
-    [] c[1] \in {"R", "X"} -> Reopen
+    [] c[1] = "R" -> Reopen("mem")
+    [] c[1] = "X" -> Reopen("disk")
     [] c[1] = "L" -> SetLimit(c[3])
 
 DeepInit == /\ Init /\ hist = <<>> /\ rng \in {Start(i) : i \in 1..Runs}
